@@ -73,6 +73,8 @@ type c16Chain struct {
 	bBlocks  []*fakechain.Block // heads: final branch f+1..b
 	desc     string
 	pairs    map[byte][][2]uint64
+	posX, posY int    // triggers registered at the same log position on the abandoned / final branch (-1 = none)
+	posBlock   uint64 // the block of that position
 	rel      []string // labels: where matching logs lie relative to registrations of the final chain
 	twins    []string // labels: outcome of triggers sharing an identity under several eons
 }
@@ -334,6 +336,11 @@ func genC16Chain(rt *rapid.T, exclReReg bool, rec *Recorder) *c16Chain {
 		c.a = p + la
 		c.b = c.a + 1 + uint64(rapid.IntRange(0, 8).Draw(rt, "finalBeyond"))
 	}
+	c.posX, c.posY = -1, -1
+	samePosition := c.fork && c.a-c.f >= 2 && rapid.IntRange(0, 9).Draw(rt, "registrationsAtSamePosition") < 5
+	if samePosition && c.b < c.a+3 {
+		c.b = c.a + 3 // room for logs after the block in which the reorg is observed
+	}
 	maxN := c.b
 	// triggers
 	nT := rapid.IntRange(1, 4).Draw(rt, "triggers")
@@ -416,6 +423,31 @@ func genC16Chain(rt *rapid.T, exclReReg bool, rec *Recorder) *c16Chain {
 		}
 		c.trig = append(c.trig, t)
 	}
+	if samePosition {
+		// the abandoned and the final branch register different triggers in
+		// the same block at the same (tx index, log index): X on the abandoned
+		// branch only, Y (another definition) on the final branch only
+		var cands []int
+		for i, t := range c.trig {
+			if t.valid {
+				cands = append(cands, i)
+			}
+		}
+		if len(cands) > 0 {
+			c.posX = rapid.SampledFrom(cands).Draw(rt, "samePosX")
+			x := c.trig[c.posX]
+			y := c16Trigger{valid: true, twinOf: -1, sibOf: -1, prefix: smallHash(0xcc, 40), sender: x.sender, eon: rapid.SampledFrom([]uint64{0, 1, 2}).Draw(rt, "samePosYEon")}
+			if rapid.Bool().Draw(rt, "samePosSamePrefixAndEon") {
+				y.prefix, y.eon = x.prefix, x.eon
+			}
+			y.def = genValidDef(rt, "samePosYDef", 2)
+			y.def.Contract = smallAddr(0x60) // a contract no other trigger watches: certainly another definition
+			y.bytes = y.def.MarshalBytes()
+			c.trig = append(c.trig, y)
+			c.posY = len(c.trig) - 1
+			c.posBlock = c.f + 1 + uint64(rapid.IntRange(0, int(c.a-c.f-2)).Draw(rt, "samePosBlock"))
+		}
+	}
 	// placements: side 'P' for n<=f, else 'A' and/or 'B'
 	items := map[string][]c16Item{}
 	place := func(l string, n uint64, it c16Item, sides []string) {
@@ -460,13 +492,18 @@ func genC16Chain(rt *rapid.T, exclReReg bool, rec *Recorder) *c16Chain {
 				r = uint64(max(1, int(r0)+rapid.IntRange(-1, 1).Draw(rt, l+"twinShift")))
 				r = min(r, maxN)
 			}
+			if j == 0 && (i == c.posX || i == c.posY) {
+				r = c.posBlock
+			}
 			if j > 0 && len(regs) > 0 && exclReReg && c.fork && r+9 > c.f && regs[0][0]+reorgDepth <= c.a {
 				// a second registration that some rollback window could delete while the first lies below it
 				rec.Excluded(sigReRegLost)
 				break
 			}
 			ttl := rapid.SampledFrom(ttls).Draw(rt, fmt.Sprintf("%sttl%d", l, j))
-			if (t.twinOf >= 0 || t.sibOf >= 0) && j == 0 {
+			if j == 0 && (i == c.posX || i == c.posY) {
+				ttl = rapid.SampledFrom([]uint64{12, 40}).Draw(rt, fmt.Sprintf("%ssamePosTTL", l))
+			} else if (t.twinOf >= 0 || t.sibOf >= 0) && j == 0 {
 				ttl = rapid.SampledFrom([]uint64{3, 6, 6, 12, 40}).Draw(rt, fmt.Sprintf("%stwinTTL", l))
 			} else if rapid.IntRange(0, 19).Draw(rt, fmt.Sprintf("%shugeTTL%d", l, j)) == 0 {
 				ttl = 1 << 63 // expiration beyond int64: inadmissible registration
@@ -476,16 +513,32 @@ func genC16Chain(rt *rapid.T, exclReReg bool, rec *Recorder) *c16Chain {
 				regs = append(regs, [2]uint64{r, r + ttl})
 			}
 			tt := t
-			place(fmt.Sprintf("%sreg%d", l, j), r, c16Item{order: 10, desc: fmt.Sprintf("reg(t%d,ttl=%d)", i, ttl), mk: func(st *branchState, num uint64) scriptLog {
+			regSides, regOrder := []string{"A", "B", "B", "B", "AB"}, 10
+			if j == 0 && (i == c.posX || i == c.posY) {
+				// first log of its block on its side: the same position on both branches
+				regOrder = 1
+				regSides = []string{"A"}
+				if i == c.posY {
+					regSides = []string{"B"}
+				}
+			}
+			place(fmt.Sprintf("%sreg%d", l, j), r, c16Item{order: regOrder, desc: fmt.Sprintf("reg(t%d,ttl=%d)", i, ttl), mk: func(st *branchState, num uint64) scriptLog {
 				s, e := mkTriggerEvent(st, num, tt.eon, tt.prefix, tt.sender, tt.bytes, tt.valid, ttl)
 				return scriptLog{s, e}
-			}}, []string{"A", "B", "B", "B", "AB"})
+			}}, regSides)
 			desc = append(desc, fmt.Sprintf("t%d@%d+%d", i, r, ttl))
 		}
 		if len(regs) == 0 {
 			regs = append(regs, [2]uint64{last, last})
 		}
 		regsOf[i] = regs
+		if i == c.posX || i == c.posY {
+			// a log matching this definition on the final branch after the block in which the reorg is observed
+			n := c.a + 2 + uint64(rapid.IntRange(0, int(c.b-c.a-2)).Draw(rt, l+"samePosLogAt"))
+			spec, _ := genLogForInfo(rt, l+"samePosLog", &t.def, true)
+			place(l+"samePosLog", n, c16Item{order: 20, desc: fmt.Sprintf("log(t%d,same-position)", i), mk: func(*branchState, uint64) scriptLog { return scriptLog{spec, &refEvent{}} }}, []string{"B"})
+			desc = append(desc, fmt.Sprintf("t%d-log@%d", i, n))
+		}
 		nLogs := rapid.IntRange(1, 4).Draw(rt, l+"logs")
 		// some triggers only ever see matching logs outside their lifetime
 		outsideOnly := rapid.IntRange(0, 4).Draw(rt, l+"logsOnlyOutsideLifetime") == 0
@@ -1002,6 +1055,19 @@ func c16Labels(c *c16Chain, hs []c16Head, p *c16Partition, fired map[string]stri
 		}
 	}
 	labels = append(labels, fmt.Sprintf("fired=%d", min(len(fired), 3)))
+	if c.posY >= 0 {
+		labels = append(labels, "sibling-registration-same-position")
+		seen := 0
+		for i, h := range hs {
+			if h.phase == 'A' && p.sel[i] && h.blk.Number() >= c.posBlock {
+				seen++
+			}
+		}
+		if seen >= 2 {
+			// the abandoned registration was stored by one Sync and active in a later one before the reorg
+			labels = append(labels, "sibling-registration-same-position:abandoned-one-active-in-a-sync-before-the-reorg")
+		}
+	}
 	labels = append(labels, c.rel...)
 	labels = append(labels, c.twins...)
 	for _, t := range c.trig {
